@@ -306,8 +306,11 @@ func chainSyncSetup(s *rt.Sim, tier string) func() {
 		outstandingAtStop := reqOnWire() - len(cbs)
 		stopRet := false
 		var stopErr error
+		var stopTook time.Duration
 		go func() {
+			t0 := time.Now()
 			stopErr = cConn.ChainSync().Client.Stop()
+			stopTook = time.Since(t0)
 			stopRet = true
 		}()
 		for i := 0; i < 6000 && !stopRet; i++ {
@@ -335,6 +338,15 @@ func chainSyncSetup(s *rt.Sim, tier string) func() {
 				if ty, err := msgType(m); err == nil && ty == 7 {
 					doneSeen = true
 				}
+			}
+			// Stop waits a bounded time (250 ms) for Done to be written. Only a slow node (F12
+			// stalls of the send loop / the muxer's sender, never present in the stall-free arm)
+			// can use that time up; then Stop did wait its full bound and gives up legitimately.
+			if !doneSeen && s.Cfg.StallPermille > 0 && stopTook >= 250*time.Millisecond {
+				rt.Hit("cs.stop-gave-up-after-full-wait")
+				cConn.Close()
+				sConn.Close()
+				return
 			}
 			if !doneSeen && stopErr == nil && len(cw.errs)+len(sw.errs) == 0 {
 				rt.Violate("C21/unclean-stop/done-never-written", "%s: Stop with no request outstanding returned nil, but MsgDone never reached the wire (the server still believes the conversation is open)", desc)
